@@ -1,6 +1,6 @@
 (* C06 - Waiting for a resource during startup has no lost or false wake-ups. *)
 From Coq Require Import List Bool Arith.
-From Asphalt Require Import Conc.Skeleton Conc.Startup Conc.StartupProofs.
+From Asphalt Require Import Conc.Skeleton Conc.Startup Conc.StartupProofs Conc.StartupTie Gen.Gen_compctx.
 Import ListNotations.
 
 (* no lost wake-up: at every quiescent point of every run, a component is blocked in a
@@ -35,3 +35,22 @@ Theorem C06_optional : forall P cc c b t name r s,
   snd (fst (run_acts P cc c b r (note_gen s (tfind (t, name) (table s))))).
 Proof. exact optional_never_waits. Qed.
 Print Assumptions C06_optional.
+
+(* ComponentContext.get_resource as read from the source on this run: optional never waits; otherwise one lookup
+   and, if that finds nothing, a wait for a resource_added event carrying the requested NAME whose types CONTAIN
+   the requested type, then the lookup again -- all on the surrounding context *)
+Theorem C06_waiting_lookup_in_source :
+  cc_delegates_to_surrounding_context = true /\ cc_optional_never_waits = true /\
+  cc_lookup_before_waiting = true /\ cc_wait_filters_by_name = true /\
+  cc_wait_filters_by_type_membership = true /\ cc_lookup_again_after_wake = true.
+Proof. exact component_context_source_shape. Qed.
+Print Assumptions C06_waiting_lookup_in_source.
+
+(* default-name remapping via the alias (computed from add_resource / add_resource_factory of the component's
+   view as read on this run) *)
+Theorem C06_default_name_remapping : forall cc n,
+  eff_name cc true 0 = dname cc /\ eff_name_fac cc true 0 = dname cc /\
+  eff_name cc false n = n /\ eff_name_fac cc false n = n /\
+  eff_name cc true (S n) = S n /\ eff_name_fac cc true (S n) = S n.
+Proof. exact default_name_remapping. Qed.
+Print Assumptions C06_default_name_remapping.
